@@ -372,7 +372,7 @@ func (r *pdRun) exchange(data []byte, desc string) {
 	r.tr("%s -> %s", desc, describeRep(repPDs))
 	hadKnown := len(r.m.Known[client]) > 0
 	for _, f := range r.m.Judge(client, reqPDs, repPDs, tBefore, tAfter) {
-		ctx.Viol(f.Prop, f.Sig, "pool %s /%d (configured as %q, log level %s): %s\n  last: %v", r.c.Pool, r.c.Alloc, spellPool(r.c.Seed, r.pool), caseLogLevel(r.c.Seed), f.Msg, r.trace)
+		ctx.Viol(f.Prop, f.Sig, "pool %s /%d (configured as %q %q, log level %s): %s\n  last: %v", r.c.Pool, r.c.Alloc, spellPool(r.c.Seed, r.pool), spellAlloc(r.c.Seed, r.c.Alloc), caseLogLevel(r.c.Seed), f.Msg, r.trace)
 	}
 	if hadKnown && len(reqPDs) > 0 {
 		r.sawRenew = true
@@ -493,6 +493,19 @@ func describeRep(rep []model.ReplyPD) string {
 	return sb.String()
 }
 
+// spellAlloc is how the allocation size is written in the configuration: decimal, as documented; an eighth
+// of the histories pad it with a zero (064), another eighth write the sign (+64) - both are the same decimal
+// number to the code under test.
+func spellAlloc(seed int64, alloc int) string {
+	switch uint64(seed>>11) % 8 {
+	case 1:
+		return fmt.Sprintf("%03d", alloc)
+	case 2:
+		return fmt.Sprintf("+%d", alloc)
+	}
+	return fmt.Sprint(alloc)
+}
+
 // spellPool is how the pool is written in the configuration: a third of the histories write it the way an
 // interface address is written (address/length with host bits set), which names the same network.
 func spellPool(seed int64, pool *net.IPNet) string {
@@ -523,7 +536,7 @@ func (prefixEngine) Run(ctx *fw.Ctx, cs any) {
 	defer setLogLevelName("info")
 	lv := setCaseLogLevel(c.Seed)
 	spelled := spellPool(c.Seed, pool)
-	h, err := prefix.Plugin.Setup6(spelled, fmt.Sprint(c.Alloc))
+	h, err := prefix.Plugin.Setup6(spelled, spellAlloc(c.Seed, c.Alloc))
 	if err != nil {
 		ctx.Viol("C08", "setup-fails", "prefix plugin setup(%s, %d) failed: %v", spelled, c.Alloc, err)
 		return
